@@ -168,7 +168,7 @@ def r_configs(tier):
         out += [cf(2, 2, True, 100, "E0", "tiny"), cf(2, -1, 2, "DYN", "E0", "dur"), cf(2, 3, 3, 100, "Arel", "args"),
                 cf(2, 2, True, 100, "E0", "size"), cf(2, 2, 2, 100, "E0", "pad"),
                 cf(2, 2, 1, 100, "E0", "small"),                        # disabled by cache < n
-                cf(3, -1, 3, 100, "E0", "args"),
+                cf(3, -1, 3, 100, "E0", "one"),
                 cf("I3", 2, True, 100, "E0", "tiny")]                 # cache ignored for INDEFINITE
     else:
         for loops in (2, -1):
@@ -214,10 +214,10 @@ _gif_path = []
 _world = {}
 
 
-def gif_path():
+def gif_path(frames=NFRAMES):
     if not _gif_path:
-        _gif_path.append(imgkit.gif(*GIF_PX, NFRAMES))
-    return _gif_path[0]
+        _gif_path.append({n: imgkit.gif(*GIF_PX, n) for n in (2, NFRAMES)})
+    return _gif_path[0][frames]
 
 
 def image_world(style):
@@ -250,7 +250,7 @@ class ISide:
     def __init__(self, cfg, cached):
         L = world.load()
         cls = imgkit.style_class(cfg["style"])
-        self.img = cls.from_file(gif_path())
+        self.img = cls.from_file(gif_path(cfg.get("frames", NFRAMES)))
         set_img_size(self.img, cfg["size0"])
         self.renders = collections.Counter()
         orig = self.img._render_image
@@ -314,9 +314,9 @@ class IPair:
     def expected(self, k):
         """format() of an independent twin image at frame k with the current size / terminal."""
         cfg = self.cfg
-        mk = (cfg["style"], cfg["spec"], k, self.size, self.term if self.size == "D" else None)
+        mk = (cfg["style"], cfg["spec"], cfg.get("frames", NFRAMES), k, self.size, self.term if self.size == "D" else None)
         if mk not in _twin_memo:
-            twin = imgkit.style_class(cfg["style"]).from_file(gif_path())
+            twin = imgkit.style_class(cfg["style"]).from_file(gif_path(cfg.get("frames", NFRAMES)))
             set_img_size(twin, self.size)
             twin.seek(k)
             _twin_memo[mk] = format(twin, cfg["spec"])
@@ -368,13 +368,14 @@ def i_judge(p, op):
     return None
 
 
-def i_ops(alpha="full"):
+def i_ops(alpha="full", frames=NFRAMES):
+    n = frames
     if alpha == "fixed-terminal":
-        return [("next",), ("close",)] + [("seek", k) for k in (0, 2, 3)] + [("size", s) for s in ("A", "D")]
+        return [("next",), ("close",)] + [("seek", k) for k in (0, n - 1, n)] + [("size", s) for s in ("A", "D")]
     if alpha == "quick":
-        return ([("next",), ("close",), ("resize",)] + [("seek", k) for k in (0, 2, 3)]
+        return ([("next",), ("close",), ("resize",)] + [("seek", k) for k in (0, n - 1, n)]
                 + [("size", s) for s in ("A", "D")])
-    return ([("next",), ("close",), ("resize",)] + [("seek", k) for k in (-1, 0, 1, 2, 3)]
+    return ([("next",), ("close",), ("resize",)] + [("seek", k) for k in range(-1, n + 1)]
             + [("size", s) for s in ("A", "B", "D")])
 
 
@@ -383,7 +384,7 @@ def i_configs(tier):
         return dict(style=style, spec=spec, cached=cached, repeat=repeat, size0=size0, alpha=alpha)
 
     if tier == "quick":
-        return [cf("block", "1.1", True, 2, "A"), cf("block", "1.1", 3, -1, "D", "fixed-terminal"),
+        return [dict(cf("block", "1.1", True, 2, "A"), frames=2), cf("block", "1.1", 3, -1, "D", "fixed-terminal"),
                 cf("kitty", "1.1+L", True, 2, "D", "fixed-terminal"), cf("iterm2", "1.1+W", 4, -1, "A", "fixed-terminal")]
     out = [cf("block", "1.1", True, 2, "A", "full"), cf("block", "1.1", True, -1, "D", "full"),
            cf("kitty", "1.1+L", True, 2, "D", "full"), cf("iterm2", "1.1+W", True, 2, "A", "full")]
@@ -398,7 +399,7 @@ def i_configs(tier):
 
 
 def i_explore(col, cfg):
-    ops = i_ops(cfg["alpha"])
+    ops = i_ops(cfg["alpha"], cfg.get("frames", NFRAMES))
     stats = dict(id=("I", repr(sorted(cfg.items()))))
     saved = [0]
 
@@ -455,7 +456,8 @@ def run(ctx):
         fixpoint=True,
         part_R=dict(alphabets={k: v for k, v in M.PROFILES.items() if k in {c["profile"] for p, c in items if p == "R"}},
                     seek_offsets="-n-1 .. n+1 for START, CURRENT, END", configurations=[c for p, c in items if p == "R"]),
-        part_I=dict(ops={a: [list(o) for o in i_ops(a)] for a in sorted({c['alpha'] for p, c in items if p == 'I'})}, gif=f"{NFRAMES} frames {GIF_PX[0]}x{GIF_PX[1]} px",
+        part_I=dict(ops={a: [list(o) for o in i_ops(a)] for a in sorted({c['alpha'] for p, c in items if p == 'I'})},
+                    frames_note='3 frames unless a configuration says frames=2', gif=f"{GIF_PX[0]}x{GIF_PX[1]} px",
                     terminals=[list(T1), list(T2)], sizes=dict(A="width=2", B="3x1", D="Size.FIT (dynamic)"),
                     configurations=[c for p, c in items if p == "I"]),
     )
